@@ -8,6 +8,8 @@ package statedb
 import (
 	"sync/atomic"
 	"time"
+
+	"github.com/cilium/statedb/internal"
 )
 
 // Verification instrumentation. Only compiled with `-tags verif`.
@@ -75,4 +77,10 @@ func (db *DB) VerifTriggerGC() {
 // (what internal.VerifSetLockHook reports).
 func VerifTableSeq(table TableMeta) uint64 {
 	return table.sortableMutex().Seq()
+}
+
+// VerifSetLockHook installs (or with nil removes) a callback invoked around
+// every individual table mutex acquisition / release.
+func VerifSetLockHook(fn func(phase string, seq uint64)) {
+	internal.VerifSetLockHook(fn)
 }
